@@ -22,6 +22,11 @@
     success                → `event <event|-> | st=<ST>`
     failure <K> <now>      → `event <event|-> | st=<ST>`
     cancel                 → `event - | st=<ST>`
+    at <d> <operation…>    tree walks (exhaustive enumeration): restore the model state stored in
+                           slot <d>, apply the operation (same syntax and same answer as above) and
+                           store the resulting state in slot <d+1> (higher slots are dropped).
+                           `new` stores the fresh state in slot 0; plain operations do not touch the
+                           slots.  `bad-op` if slot <d> is not filled.
         <ST> = <state>;<opened_at|->;<probe 0|1>;<failures t,t,…|->;<class failures K:t,t/K:t|->
         (non-empty class buckets only, in the order of the class list above)
     spec <R>#<R>#…   (or `spec -` for the empty history)
@@ -133,6 +138,7 @@ def cfg? (ft win rec trip cls : String) : Option (Option Cfg) := do
 structure Sess where
   cfg : Cfg
   st : St
+  slots : Array St := #[]
 
 def respond (cur : Option Sess) (line : String) : String × Option Sess :=
   let toks := (line.splitOn " ").filter (· ≠ "")
@@ -141,7 +147,7 @@ def respond (cur : Option Sess) (line : String) : String × Option Sess :=
     match cfg? ft win rec trip cls with
     | none => ("bad-op", none)
     | some none => ("err ValueError", none)
-    | some (some c) => ("ok", some { cfg := c, st := St.init })
+    | some (some c) => ("ok", some { cfg := c, st := St.init, slots := #[St.init] })
   | ["spec", recs] =>
     match cur with
     | none => ("bad-op", cur)
@@ -154,6 +160,16 @@ def respond (cur : Option Sess) (line : String) : String × Option Sess :=
         match historyOk s.cfg rs with
         | .ok => (s!"spec-ok {rs.length}", cur)
         | .bad p i d => (s!"spec-bad {p} {i} {d}", cur)
+  | "at" :: d :: rest =>
+    match cur, d.toNat?, op? rest with
+    | some s, some d, some op =>
+      match s.slots[d]? with
+      | none => ("bad-op", cur)
+      | some st =>
+        let (o, st') := mstep s.cfg st op
+        (s!"{outTok o} | st={obsTok st'.obs}",
+          some { s with st := st', slots := (s.slots.extract 0 (d + 1)).push st' })
+    | _, _, _ => ("bad-op", cur)
   | _ =>
     match cur, op? toks with
     | some s, some op =>
